@@ -61,6 +61,8 @@ func checkC09(c *Ctx) {
 	// a key supplied through Model() or through the deleted value is a condition: both delete builders must pick it up,
 	// otherwise the chain is rejected although it supplied one (same rule as C02.pk-sources)
 	checkC09ScopesDrained(c)
+	// a key with one zero part is still a condition (same rule as C11.key-nonzero)
+	checkKeyNonZero(c, c.Rule("C09.key-any-part", "a (composite) key of the deleted value counts as a condition when ANY part is non-zero: the flag accumulates over all key fields", 2))
 	checkSessionFlags(c, c.Rule("C09.session-flags", "Session copies each option onto the same-named configuration field (AllowGlobalUpdate is turned on only by a session that asks for it)", 5))
 	checkPkSources(c, c.Rule("C09.pk-sources", "both delete builders turn the key of the deleted value AND of Model() into WHERE conditions (a chain that supplies a key is not rejected)", 2))
 	execs, _ := executorSet(p)
